@@ -829,3 +829,55 @@ def normalise_positions(fi, t, at_cfg_node, tm, depth=4, resolve=True):
                 return rec(subst(y[1][2], ("bv", "$0"), y[2]), d_ - 1)
         return y
     return rec(t, depth)
+
+
+def loop_carried_aliases(prog, fi):
+    """[(append/store stmt, name, how it is changed)]: inside a loop a container receives the plain name X (`L.append(X)`, `L[k] = X`,
+    `D[k] = X`) although X is not re-bound on every path of the iteration before that point -- the object bound before the loop (or in an
+    earlier iteration) is stored again -- and the loop changes X in place (element store, in-place operator, mutator call, or a call of a
+    package method that stores into that parameter).  All entries then denote one object that keeps changing."""
+    from .cfg import cfg_of
+    c = cfg_of(fi)
+    out = []
+    for loop in [l for l in walk_local(fi.node) if isinstance(l, (ast.For, ast.While))]:
+        body_nodes = [n for st in loop.body for n in ast.walk(st)]
+        # names changed in place inside the loop
+        changed = {}
+        for n in body_nodes:
+            if isinstance(n, ast.Subscript) and isinstance(n.ctx, (ast.Store, ast.Del)) and isinstance(n.value, ast.Name):
+                changed.setdefault(n.value.id, "element store")
+            elif isinstance(n, ast.Call) and isinstance(n.func, ast.Attribute) and isinstance(n.func.value, ast.Name) and n.func.attr in MUTATOR_METHODS \
+                    and n.func.attr not in ("append", "extend", "add", "update", "insert") :
+                changed.setdefault(n.func.value.id, "mutator call .%s()" % n.func.attr)
+            elif isinstance(n, ast.Call) and isinstance(n.func, ast.Attribute):
+                # a package method that stores into one of its parameters
+                tgts = prog.methods_named(n.func.attr)
+                if 1 <= len(tgts) <= 3:
+                    for t_ in tgts:
+                        mods = {root for (_s, _n, root, _h) in inplace_modifications_of_parameters(t_)}
+                        ps = [p_ for p_ in t_.params if p_ != t_.self_name]
+                        for p_, a_ in zip(ps, n.args):
+                            if p_ in mods and isinstance(a_, ast.Name):
+                                changed.setdefault(a_.id, "stored into by %s()" % n.func.attr)
+        if not changed:
+            continue
+        for st in [s_ for s_ in loop.body for s_ in ast.walk(s_) if isinstance(s_, (ast.Expr, ast.Assign))]:
+            stored = None
+            if isinstance(st, ast.Expr) and isinstance(st.value, ast.Call) and isinstance(st.value.func, ast.Attribute) and st.value.func.attr in ("append", "add") \
+                    and len(st.value.args) == 1 and isinstance(st.value.args[0], ast.Name):
+                stored = st.value.args[0].id
+            elif isinstance(st, ast.Assign) and len(st.targets) == 1 and isinstance(st.targets[0], ast.Subscript) and isinstance(st.value, ast.Name):
+                stored = st.value.id
+            if stored is None or stored not in changed:
+                continue
+            sn = c.node_of(st)
+            ln = c.node_of(loop)
+            if sn is None or ln is None:
+                continue
+            # is there a path from the loop head to the store within one iteration that passes no re-binding of the name?
+            rebinds = [c.node_of(b.stmt) for b in terms_of(fi).env.bindings.get(stored, []) if b.kind in ("assign", "unpack", "for", "forunpack", "with")
+                       and c.node_of(b.stmt) is not None and c.in_loop(c.node_of(b.stmt), loop)]
+            reach = c.reachable_after(ln, blocked=[r for r in rebinds] + [ln])
+            if sn.idx in reach:
+                out.append((st, stored, changed[stored]))
+    return out
